@@ -38,6 +38,10 @@ def line(req):
     if op == 'accepts':
         _, n, K, ps = req
         return 'accepts %d %s %s' % (n, core.names_line(K), core.params_line(ps))
+    if op == 'partialsig':
+        _, n, kw, ps = req
+        kws = '.'.join('%d=%d' % (core.NAMES.id(k), v) for k, v in kw) or '_'
+        return 'maskp %d %s 2 %s' % (n, kws, core.sig_line(core.D(ps, fn=1)))
     if op in ('bindcall', 'bindcallsig'):
         _, args, kw, ps = req
         return '%s %s %s %s' % (op, vals_line(args), kw_line(kw), core.params_line(ps))
